@@ -162,6 +162,8 @@ def write_replay(pid, plan, sig, digest, msg, directory="replays") -> str:
 
 def do_replay(pid, path) -> int:
     prop = load_prop(pid)
+    if hasattr(prop, "prepare"):
+        prop.prepare(None)
     with open(path) as f:
         doc = json.load(f)
     expect = doc.pop("expect", {})
@@ -207,6 +209,8 @@ def run_check(pid: str, tier: str, verif_seed: int, runs: int | None, workers: i
               runs_div: int = 1) -> int:
     t0 = time.monotonic()
     prop = load_prop(pid)
+    if hasattr(prop, "prepare"):
+        prop.prepare(tier)      # per-check setup in the parent (inherited by the forked workers)
     n_seeded = runs if runs is not None else prop.RUNS[tier]
     n_sys = prop.systematic_count(tier) if hasattr(prop, "systematic_count") else 0
     if runs is not None and runs < prop.RUNS[tier]:
@@ -459,6 +463,8 @@ def _abridge(plan, limit=400):
 
 def print_indices(pid, tier, verif_seed, idx, sysidx) -> int:
     prop = load_prop(pid)
+    if hasattr(prop, "prepare"):
+        prop.prepare(tier)
     out = {}
     nsys = prop.systematic_count(tier) if hasattr(prop, "systematic_count") else 0
     for kind, lst in (("seed", idx), ("sys", [i for i in sysidx if i < nsys])):
